@@ -2693,7 +2693,8 @@ func famProof(r *Rng, o *Out, tier string) {
 		encoded := false
 		var lastEnc []byte
 		bound := false
-		parentTok, _ := macaroon.New(r.Bytes(6), "https://api.fly.io/v1", r.Bytes(32))
+		pkid, pkey := r.Bytes(6), r.Bytes(32)
+		parentTok, _ := macaroon.New(pkid, "https://api.fly.io/v1", pkey)
 		parentTok.Add(c3)
 		parentBytes := mustEnc(parentTok)
 		for s, ss := 0, 1+r.Intn(10); s < ss; s++ {
@@ -2871,6 +2872,24 @@ func famProof(r *Rng, o *Out, tier string) {
 					outs = append(outs, "verify:ok"+sxCavs(cs.Caveats))
 					if !encoded {
 						o.emit("(const sound)", "unfinalised-proof-verified")
+					}
+				}
+				// ... and as a LIVE discharge object of its root (VerifyParsed): never encoded, it satisfies nothing, and
+				// the attempt leaves the caller's object as it was (a verifier working on clones of what it is given
+				// finalises them on the way: Clone encodes)
+				if !encoded && !bound {
+					if pm, err := macaroon.Decode(parentBytes); err == nil {
+						before := append([]byte{}, dm.Tail...)
+						_, perr := pm.VerifyParsed(pkey, []*macaroon.Macaroon{dm}, nil)
+						o.count("live-discharge-unfinalised")
+						switch {
+						case perr == nil:
+							o.emit("(const sound)", "unfinalised-proof-accepted-as-a-live-discharge")
+						case !bytes.Equal(before, dm.Tail):
+							o.emit("(const sound)", "verification-changed-the-callers-unfinalised-proof")
+						default:
+							o.emit("(const sound)", "sound")
+						}
 					}
 				}
 			default:
